@@ -561,6 +561,92 @@ fn gen_qnt(rng: &mut Rng, big: bool) -> Value {
     json!({"kind": "qnt", "w": w, "h": h, "data": data, "crop": crop, "k": k, "dither": rng.chance(1, 2), "bg": bg})
 }
 
+/// n pairwise distinct colours
+fn gen_distinct(rng: &mut Rng, n: usize) -> Vec<Rgb> {
+    let mut v: Vec<Rgb> = vec![];
+    let style = rng.below(3);
+    let base = [rng.byte(), rng.byte(), rng.byte()];
+    let mut guard = 0;
+    while v.len() < n && guard < 100000 {
+        guard += 1;
+        let c = match style {
+            0 => [rng.byte(), rng.byte(), rng.byte()],
+            // deep shared prefixes: only the low 3 bits of each channel vary (512 values)
+            1 => [
+                (base[0] & 0xf8) | rng.below(8) as u8,
+                (base[1] & 0xf8) | rng.below(8) as u8,
+                (base[2] & 0xf8) | rng.below(8) as u8,
+            ],
+            _ => [*rng.pick(&EDGE), *rng.pick(&EDGE), *rng.pick(&EDGE)],
+        };
+        if !v.contains(&c) {
+            v.push(c);
+        }
+    }
+    v
+}
+
+/// octree pipeline with exactly max(k,8) + delta distinct colours (delta in -1, 0, +1, +2)
+fn gen_oct_boundary(rng: &mut Rng) -> Value {
+    let k = *rng.pick(&KS);
+    let m = (k.max(8) as i64 + rng.range(-1, 2)).max(1) as usize;
+    let cols = gen_distinct(rng, m);
+    let mut seq: Vec<Rgb> = cols.clone();
+    for _ in 0..rng.below(2 * m as u64 + 1) {
+        seq.push(*rng.pick(&cols));
+    }
+    // shuffle
+    for i in (1..seq.len()).rev() {
+        let j = rng.below(i as u64 + 1) as usize;
+        seq.swap(i, j);
+    }
+    let mut ops: Vec<Value> = seq.iter().map(|c| json!(["i", c[0], c[1], c[2]])).collect();
+    ops.push(json!(["u", k]));
+    ops.push(json!(["b"]));
+    ops.push(json!(["d"]));
+    json!({"kind": "oct", "ops": ops})
+}
+
+/// image with exactly m distinct colours, m around k and around max(k,8); or one dominant colour
+/// plus a few single pixels of other colours (what subsampling would lose)
+fn gen_qnt_boundary(rng: &mut Rng) -> Value {
+    let k = *rng.pick(&KS);
+    let rare = rng.chance(1, 3);
+    let m = if rare {
+        // fits the requested size, so the image must come back exactly
+        (1 + rng.below(k.min(6)) as usize).max(if k >= 2 { 2 } else { 1 })
+    } else {
+        let around = if rng.chance(1, 2) { k } else { k.max(8) };
+        (around as i64 + rng.range(-1, 1)).max(1) as usize
+    };
+    let cols = gen_distinct(rng, m);
+    let (h, w) = if rare {
+        (4 + rng.below(9) as usize, 8 + rng.below(13) as usize)
+    } else {
+        let w = 1 + rng.below(16) as usize;
+        ((m + w - 1) / w + rng.below(3) as usize, w)
+    };
+    let npix = h * w;
+    let mut px: Vec<Rgb> = vec![];
+    if rare {
+        px = vec![cols[0]; npix];
+        for c in cols.iter().skip(1) {
+            let at = rng.below(npix as u64) as usize;
+            px[at] = *c;
+        }
+    } else {
+        for i in 0..npix {
+            px.push(if i < m { cols[i] } else { *rng.pick(&cols) });
+        }
+        for i in (1..px.len()).rev() {
+            let j = rng.below(i as u64 + 1) as usize;
+            px.swap(i, j);
+        }
+    }
+    let data: Vec<Value> = px.iter().map(|c| json!([c[0], c[1], c[2], 255])).collect();
+    json!({"kind": "qnt", "w": w, "h": h, "data": data, "crop": Value::Null, "k": k, "dither": rng.chance(1, 2), "bg": Value::Null})
+}
+
 pub fn generate(rng: &mut Rng, n: usize, tier: &str) -> Vec<Value> {
     let thorough = tier == "thorough";
     let mut v = vec![];
@@ -572,8 +658,10 @@ pub fn generate(rng: &mut Rng, n: usize, tier: &str) -> Vec<Value> {
             _ => {
                 if i % 20 == 9 {
                     gen_qnt(rng, true)
+                } else if i % 40 == 19 {
+                    gen_oct_boundary(rng)
                 } else {
-                    gen_kd(rng, thorough)
+                    gen_qnt_boundary(rng)
                 }
             }
         };
